@@ -395,6 +395,35 @@ impl Runner {
         }
     }
 
+    /// small-angle Helmert: inverse after forward leaves at most |r|^2 |x| (plus rounding)
+    fn second(&mut self, c: &Value) {
+        let input = tuples(&c["data"]);
+        let r2 = c["r2"].as_f64().unwrap_or(0.0);
+        let fwd = match self.apply(&json!({"def": c["def"], "dir": "F"}), &input) {
+            Applied::Ok(_, d) => d,
+            Applied::Rejected(e) => return self.fail(c, "rejected", json!(e)),
+            Applied::Panic(e) => return self.fail(c, "panic", json!(e)),
+        };
+        let back = match self.apply(&json!({"def": c["def"], "dir": "I"}), &fwd) {
+            Applied::Ok(_, d) => d,
+            Applied::Rejected(e) => return self.fail(c, "rejected", json!(e)),
+            Applied::Panic(e) => return self.fail(c, "panic", json!(e)),
+        };
+        for k in 0..input.len() {
+            let x = input[k];
+            let norm = (x[0] * x[0] + x[1] * x[1] + x[2] * x[2]).sqrt();
+            let res = ((back[k][0] - x[0]).powi(2) + (back[k][1] - x[1]).powi(2) + (back[k][2] - x[2]).powi(2)).sqrt();
+            let lim = 1.001 * r2 * norm + 1e-8;
+            if !(res <= lim) {
+                return self.fail(c, "round trip beyond second order", json!({"tuple": k, "residual_m": if res.is_nan() {json!("NaN")} else {json!(res)},
+                    "bound_m": lim, "input": show(&input), "forward": show(&fwd), "back": show(&back)}));
+            }
+            if !bits_eq(back[k][3], x[3]) {
+                return self.fail(c, "fourth element touched", json!({"tuple": k}));
+            }
+        }
+    }
+
     fn params(&mut self, c: &Value) {
         let def = c["def"].as_str().unwrap_or("");
         let h = match self.op(def) {
@@ -532,6 +561,7 @@ fn replay(input: &str, output: &str) -> i32 {
             "rel" => r.rel(&c),
             "approx" => r.approx(&c),
             "iso" => r.iso(&c),
+            "second" => r.second(&c),
             "params" => r.params(&c),
             "op" => r.opcase(&c),
             "projdef" => {
